@@ -639,6 +639,7 @@ def run_property(prop, tier, seed):
     other = {}
     drift = {}
     nbound = {}
+    winshare = {}
     classes = {}
     reached = {}
     for (job, shard), tr, r in zip(pairs, traces, results):
@@ -647,8 +648,16 @@ def run_property(prop, tier, seed):
         nev += r['done'][1]
         lines = None
         # event statistics
+        defs = {}
+        lineno = 0
         with open(tr) as f:
             for ln in f:
+                lineno += 1
+                if ln.startswith('{"e":"def"'):
+                    mm = re.match(r'\{"e":"def","m":(\d+),"n":(\d+)', ln)
+                    if mm:
+                        defs[lineno] = (int(mm.group(1)), int(mm.group(2)))
+                    continue
                 if ln.startswith('{"e":"fault"'):
                     ev = json.loads(ln)
                     s = {'op': 'fault:' + ev['scn'], 'failed_request': ev['i'], 'of': ev['n'], 'fate': ev['fate']}
@@ -676,6 +685,15 @@ def run_property(prop, tier, seed):
                         if len(samples) < 6 and (len(sigs) % 97 == 1):
                             samples.append(s)
                     perop[ev['op']] = perop.get(ev['op'], 0) + 1
+                    if 'views' in job.label:
+                        # which share of the matrix operands of this operation really were windows (a views job whose
+                        # operation never sees a window does not test what it claims)
+                        w = winshare.setdefault(ev['op'], [0, 0])
+                        for o in ev.get('o', []):
+                            if o.get('pre', 0) > 0 and o['pre'] in defs:
+                                w[1] += 1
+                                if (o['m'], o['n']) != defs[o['pre']]:
+                                    w[0] += 1
                     if ev['op'] in BOUND_OPS and ev.get('o') and not ev.get('die'):
                         o0 = ev['o'][0]
                         if o0['m'] * o0['n'] <= 10000 or (job.cfg.startswith('tiny') and o0['m'] * o0['n'] <= 350 * 270):
@@ -740,6 +758,9 @@ def run_property(prop, tier, seed):
                     pass
     for ck in sorted(classes):
         log('[rejected] %4d x %s' % (classes[ck], ck))
+    nowin = sorted(k for k, v in winshare.items() if v[1] >= 20 and v[0] == 0)
+    if nowin:
+        log('[views] WARNING: operations that never received a window operand in the views jobs: %s' % ', '.join(nowin))
     for dk in sorted(drift):
         log('[model-drift] %4d x %s: the code no longer follows the specification\'s internal policy here; the bounded model checks of that '
             'policy do not transfer to this tree (not a verdict about the property, which is judged on the observables)' % (drift[dk], dk))
@@ -756,6 +777,7 @@ def run_property(prop, tier, seed):
         'build_configurations': sorted(set(j.cfg for j in jobs)),
         'rejections_left_to_other_properties': other,
         'model_drift': drift,
+        'window_operands_in_views_jobs': {k: '%d of %d' % (v[0], v[1]) for k, v in sorted(winshare.items())},
         'model_conformance': {'events_compared_bit_for_bit_with_the_implementation_shaped_model': nbound,
                               'models': 'alg/PLERussian (k explicit or automatic), alg/PLERec (naive PLE/PLUQ; block recursion with the PLERussian base case and the '
                                         'TRSM recursion), alg/Echelon (explicit k; pivot search), alg/Solve (solve_left, kernel, echelonize_pluq without full reduction on '
